@@ -85,6 +85,7 @@ class Interp:
                       'worlds_max': 0, 'functions': set()}
         self._single_assign = {}
         self._join_family = {}
+        self._inline_seq = {}
         self.loop_atoms = set()        # join atoms created at loop heads, and joins of values that mention them
         self.head_points = set()
         self._live = {}
@@ -104,6 +105,7 @@ class Interp:
         self.records.setdefault(key, []).append(Record(kind, site, frame.ctx, data))
 
     def clear_records(self, ctx, bb):
+        self._inline_seq[(ctx, bb)] = 0
         pref = ctx + ((bb,),)
         # records of this block and of every callee context entered from this block
         for k in [k for k in self.records if k == (ctx, bb) or (len(k[0]) > len(ctx) and k[0][:len(ctx)] == ctx and k[0][len(ctx)][1] == bb and k[0][len(ctx)][2] == 'via')]:
@@ -1418,7 +1420,12 @@ class Interp:
         if self.depth > 12:
             raise AnalysisError("inlining depth")
         self.stats['calls_inlined'] += 1
-        ctx = frame.ctx + ((frame.body.key, bb, 'via'),)
+        # one context per inlined activation: several worlds reaching the same call site are analysed
+        # separately and must not overwrite each other's records
+        k = (frame.ctx, bb)
+        n = self._inline_seq.get(k, 0)
+        self._inline_seq[k] = n + 1
+        ctx = frame.ctx + ((frame.body.key, bb, 'via', n),)
         self.depth += 1
         try:
             rets = self.run_function(body, w, args, ctx)
